@@ -102,7 +102,12 @@ _OBLIGS: List[Oblig] = []
 
 
 def _build_solver(ob: Oblig, timeout_ms: int, qf_only=False):
-    s = z3.Solver()
+    """The query is copied into a context of its own: z3's behaviour on quantified queries depends on the ids (creation
+    order) of the terms in the context, and in a worker that has built and solved other obligations before, a query
+    that takes 0.0 s in a fresh process was seen to diverge under every configuration.  In a fresh context the ids are
+    the traversal order of this query alone, whatever ran before."""
+    ctx = z3.Context()
+    s = _FreshSolver(ctx)
     s.set("timeout", timeout_ms)
     terms = list(ob.assumptions) + [ob.goal]
     ax = seqs.global_axioms()
@@ -128,6 +133,18 @@ def _build_solver(ob: Oblig, timeout_ms: int, qf_only=False):
     return s
 
 
+class _FreshSolver(z3.Solver):
+    """Solver in its own context; `add` translates the formula into it"""
+
+    def __init__(self, ctx):
+        super().__init__(ctx=ctx)
+        self._ctx = ctx
+
+    def add(self, *fs):
+        for f in fs:
+            super().add(f.translate(self._ctx))
+
+
 def _solve_one(idx) -> Dict[str, Any]:
     """runs in a forked worker: the obligation objects are inherited from the parent's memory"""
     ob = _OBLIGS[idx]
@@ -147,20 +164,25 @@ def _solve_one(idx) -> Dict[str, Any]:
     try:
         # A proof that exists is usually found in well under a second; when z3 diverges instead, the divergence depends on
         # the seed and on term order (the same query was seen to go 0.3 s / unknown / 15 s timeout across seeds).  So: a
-        # few short attempts under different configurations first, then one long attempt.  Classes that needed the long
-        # attempt when the ledger was recorded (hint "z3-long") start with it.
-        short = [(3000, {}), (3000, {"smt.mbqi": False}), (3000, {"smt.random_seed": 7}),
-                 (3000, {"smt.random_seed": 23, "smt.mbqi": False}), (3000, {"smt.random_seed": 101})]
-        long_ = [(Z3_TIMEOUT_MS, {"smt.random_seed": 3})]
-        plan = long_ + short if getattr(ob, "hint", None) == "z3-long" else short + long_
+        # few short attempts under different configurations first, then one long attempt.  For a class that was slow or
+        # needed another configuration when the ledger was recorded, the ledger remembers the configuration (hint
+        # "z3:cfg<i>") and that one runs first with the long budget: a pass does not turn into a timeout on a busy machine.
+        cfgs = [{}, {"smt.mbqi": False}, {"smt.random_seed": 7}, {"smt.random_seed": 23, "smt.mbqi": False}, {"smt.random_seed": 101}]
+        short = [(i, 3000) for i in range(len(cfgs))]
+        plan = short + [(0, Z3_TIMEOUT_MS)]
+        h = getattr(ob, "hint", None) or ""
+        if h.startswith("z3:cfg"):
+            # the configuration that discharged this class when the ledger was recorded, with the long budget, first
+            plan = [(int(h[6:]), Z3_TIMEOUT_MS)] + plan
         r, label = z3.unknown, ""
-        for tmo, cfg in plan:
+        for ci, tmo in plan:
             s = _build_solver(ob, tmo)
-            for k_, v_ in cfg.items():
+            for k_, v_ in cfgs[ci].items():
                 s.set(k_, v_)
+            t1 = time.time()
             r = s.check()
             if r != z3.unknown:
-                label = " (long attempt)" if tmo == Z3_TIMEOUT_MS else ""
+                label = f" cfg{ci}" + (" slow" if time.time() - t1 > 1.0 else "")
                 break
         if r == z3.unsat:
             out.update(verdict="unsat", solver=f"z3 {z3.get_version_string()}" + label)
